@@ -3,6 +3,8 @@
 mod builder;
 pub mod iter;
 mod mapper;
+#[cfg(feature = "daachorse_verif")]
+mod verif;
 
 use core::mem;
 use core::num::NonZeroU32;
@@ -721,6 +723,8 @@ impl<V> CharwiseDoubleArrayAhoCorasick<V> {
     unsafe fn next_state_id_unchecked(&self, mut state_id: u32, c: char) -> u32 {
         if let Some(mapped_c) = self.mapper.get(c) {
             loop {
+                #[cfg(feature = "daachorse_verif")]
+                crate::verif::on_step();
                 if let Some(state_id) = self.child_index_unchecked(state_id, mapped_c) {
                     return state_id;
                 }
@@ -741,6 +745,8 @@ impl<V> CharwiseDoubleArrayAhoCorasick<V> {
     unsafe fn next_state_id_leftmost_unchecked(&self, mut state_id: u32, c: char) -> u32 {
         if let Some(mapped_c) = self.mapper.get(c) {
             loop {
+                #[cfg(feature = "daachorse_verif")]
+                crate::verif::on_step();
                 if let Some(state_id) = self.child_index_unchecked(state_id, mapped_c) {
                     return state_id;
                 }
